@@ -16,7 +16,7 @@ from vlib.runner import HarnessError, ShardResult, Violation
 ID = "C10"
 LEVEL = "exploration"
 RULE = ("a case is a history over one service id on strictly consecutive connections, drawn from {connect, config(c1|c2), "
-        "upload(e1|e2), search(t_w), message with a foreign sid, message of unknown type, close, reconnect, reconnect inside the server's cleanup pause (the pause is a gate owned by the driver), server restart, two requests pipelined on one connection, a hard restart (every server module back to its import-time state), a complete workflow of a companion service whose id shares a 40-character prefix}; c1/c2 are valid "
+        "upload(e1|e2), search(t_w), message with a foreign sid, message of unknown type, close, reconnect, reconnect inside the server's cleanup pause (the pause is a gate owned by the driver), server restart, two requests pipelined on one connection, a hard restart (every server module back to its import-time state), a complete workflow of a companion service whose id shares a 40-character prefix or is the same hex string in upper case; search messages with, without and with a non-bytes token_digest field}; c1/c2 are valid "
         "configurations differing in identifier size, e1/e2 index two databases that share keywords but not postings, so answering "
         "from the wrong config or index changes results. Executed over real loopback websockets against the real handler; the "
         "observable trace (init-echo state, ok / refused, result payloads) must equal the trace of a 3-state reference model "
@@ -203,12 +203,17 @@ class Driver:
             # nothing of it may leak into this service (and vice versa)
             await self.drain_and_close()
             await self.settle()
+            twin = len(ev) > 1 and ev[1] == "case"
             if self.companion is None:
-                comp_sid = self.sid[:40] + hashlib.sha256(b"companion" + self.sid.encode()).hexdigest()[:24]
-                self.companion = Driver(self.scheme, self.fx, comp_sid, self.srv)
-                self.companion.gate = self.gate
-                self.companion.trace = self.trace
-            c = self.companion
+                self.companion = {}
+            if twin not in self.companion:
+                # either an id sharing a 40-character prefix, or the SAME hex digits in upper case (a different string, hence a
+                # different service)
+                comp_sid = self.sid.upper() if twin else self.sid[:40] + hashlib.sha256(b"companion" + self.sid.encode()).hexdigest()[:24]
+                self.companion[twin] = Driver(self.scheme, self.fx, comp_sid, self.srv)
+                self.companion[twin].gate = self.gate
+                self.companion[twin].trace = self.trace
+            c = self.companion[twin]
             for ev2 in ([["config", 2], ["upload", 2]] if c.state == 0 else []) + [["search", "alpha"], ["search", "beta"]]:
                 await Driver.step(c, list(ev2))
                 self.trace.pop()  # the companion's own steps are not part of this service's history
@@ -275,7 +280,11 @@ class Driver:
             await self.expect_outcome(ev)
         elif kind == "search":
             tok = self.fx["tok"][ev[1].encode()]
-            await self.rc.send("token", tok, token_digest=hashlib.sha256(tok).digest())
+            variant = ev[2] if len(ev) > 2 else None
+            # the digest is an optional field the server only echoes: it may be missing, or not be a byte string
+            extra = {} if variant == "nodigest" else {"token_digest": hashlib.sha256(tok).hexdigest()} if variant == "strdigest" else \
+                {"token_digest": hashlib.sha256(tok).digest()}
+            await self.rc.send("token", tok, **extra)
             await self.expect_outcome(ev)
         elif kind == "foreign":
             other = hashlib.sha256(self.sid.encode()).hexdigest()
@@ -327,7 +336,8 @@ class Driver:
         elif kind == "search":
             w = ev[1].encode()
             tok = self.fx["tok"][w]
-            digest = hashlib.sha256(tok).digest()
+            variant = ev[2] if len(ev) > 2 else None
+            digest = None if variant == "nodigest" else hashlib.sha256(tok).hexdigest() if variant == "strdigest" else hashlib.sha256(tok).digest()
             want = local_answer(self.fx, self.cfg, self.edb, tok) if self.state == 2 else None
             if self.state == 2 and want is not None:
                 m = await self.next_msg()
@@ -344,7 +354,7 @@ class Driver:
                 if got != want:
                     self.fail("search result %r differs from Search over the ACCEPTED config and index %r" % (got, want), "result_from_wrong_index")
                 if m.get("token_digest") != digest:
-                    self.fail("result does not echo the token digest", "token_digest")
+                    self.fail("result does not echo the token digest field (%r sent, %r echoed)" % (digest, m.get("token_digest")), "token_digest")
             else:
                 await self.expect_refusal("search", "result")
         else:
@@ -427,10 +437,11 @@ def st_case(draw, max_len):
         st.tuples(st.just("config"), st.sampled_from([1, 2])).map(list),
         st.tuples(st.just("upload"), st.sampled_from([1, 2])).map(list),
         st.tuples(st.just("search"), st.sampled_from(["alpha", "beta", "gamma", "absent"])).map(list),
+        st.tuples(st.just("search"), st.sampled_from(["alpha", "beta"]), st.sampled_from(["nodigest", "strdigest"])).map(list),
         st.tuples(st.just("foreign"), st.sampled_from(["config", "upload_edb", "token"])).map(list),
         st.tuples(st.just("unknown"), st.sampled_from(["delete", "init", "result", "control", ""])).map(list),
         st.sampled_from([["reconnect"], ["reconnect"], ["reconnect_early"], ["reconnect_early"], ["close"], ["restart"], ["restart", 1],
-                         ["companion"]]),
+                         ["companion"], ["companion", "case"]]),
         st.tuples(st.just("pipeline"), st.lists(st.one_of(
             st.tuples(st.just("config"), st.sampled_from([1, 2])).map(list),
             st.tuples(st.just("upload"), st.sampled_from([1, 2])).map(list),
@@ -492,6 +503,9 @@ def run_shard(spec, seed, tier):
                              [["config", 1], ["reconnect"], ["upload", 1], ["restart", 1], ["search", "alpha"], ["upload", 2]],
                              [["config", 1], ["upload", 1], ["restart", 1], ["search", "beta"], ["reconnect_early"], ["search", "alpha"]],
                              [["config", 1], ["upload", 1], ["companion"], ["search", "alpha"], ["search", "beta"]],
+                             [["companion", "case"], ["config", 1], ["upload", 1], ["search", "alpha"]],
+                             [["config", 1], ["companion", "case"], ["upload", 1], ["search", "alpha"], ["companion", "case"], ["search", "beta"]],
+                             [["config", 1], ["upload", 1], ["search", "alpha", "nodigest"], ["search", "beta", "strdigest"], ["search", "alpha"]],
                              [["companion"], ["config", 1], ["upload", 1], ["search", "alpha"], ["companion"], ["search", "beta"]],
                              [["config", 1], ["companion"], ["upload", 1], ["search", "alpha"], ["reconnect_early"], ["search", "beta"]],
                              [["config", 1], ["upload", 1], ["search", "alpha"], ["companion"], ["reconnect"], ["search", "alpha"]]):
